@@ -761,6 +761,28 @@ m('c16_fee_one_leg', ['C16', 'C06'], 'jesse/models/ClosedTrade.py',
   "        return trading_fee * self.qty * (self.entry_price + self.exit_price)", "        return trading_fee * self.qty * (self.entry_price + self.entry_price)")
 m('c16_gross_loss_abs', ['C16'], 'jesse/services/metrics.py',
   "    gross_loss = losing_trades['PNL'].sum()", "    gross_loss = abs(losing_trades['PNL'].sum())")
+m('c16_sortino_over_negative_count', ['C16'], 'jesse/services/metrics.py',
+  "    downside = np.sqrt((returns[returns < 0] ** 2).sum() / len(returns))",
+  "    downside = np.sqrt((returns[returns < 0] ** 2).sum() / max(len(returns[returns < 0]), 1))")
+m('c16_sharpe_population_std', ['C16'], 'jesse/services/metrics.py',
+  "    divisor = returns.std(ddof=1)", "    divisor = returns.std(ddof=0)")
+m('c16_cagr_days_plus_one', ['C16'], 'jesse/services/metrics.py',
+  "    # Calculate years exactly as quantstats does\n    days = (returns.index[-1] - returns.index[0]).days",
+  "    # Calculate years exactly as quantstats does\n    days = (returns.index[-1] - returns.index[0]).days + 1")
+m('c16_calmar_uses_last_drawdown', ['C16'], 'jesse/services/metrics.py',
+  "    max_dd = abs(drawdown.min())", "    max_dd = abs(drawdown.iloc[-1]) if len(drawdown) > 40 else abs(drawdown.min())")
+m('c16_expectancy_uses_total_rate', ['C16'], 'jesse/services/metrics.py',
+  "        0 if np.isnan(average_loss) else average_loss) * (1 - win_rate)",
+  "        0 if np.isnan(average_loss) else average_loss) * (total_losing_trades / total_completed)",
+  note='differs only when break-even trades exist')
+m('c16_largest_loss_is_smallest', ['C16'], 'jesse/services/metrics.py',
+  "    largest_losing_trade = 0 if total_losing_trades == 0 else losing_trades['PNL'].min()",
+  "    largest_losing_trade = 0 if total_losing_trades == 0 else losing_trades['PNL'].max()")
+m('c16_net_profit_pct_of_current', ['C16'], 'jesse/services/metrics.py',
+  "    net_profit_percentage = (net_profit / starting_balance) * 100", "    net_profit_percentage = (net_profit / current_balance) * 100")
+m('c16_avg_win_over_all', ['C16'], 'jesse/services/metrics.py',
+  "    average_win = winning_trades['PNL'].mean()", "    average_win = winning_trades['PNL'].sum() / max(total_completed - total_losing_trades, 1)",
+  note='differs only when break-even trades exist')
 m('c16_fast_daily_before_routes', ['C16'], 'jesse/modes/backtest_mode.py',
   """        _execute_routes(i, current_step)
 
